@@ -157,9 +157,14 @@ mutual
     | p :: ps => encParam p :: encParams ps
 end
 
-/-- Serialised `bound` of an extension type: `type_bound()`; when that raises, encoding raises. -/
+/-- Serialised `bound` of an extension type: `type_bound()`; when that raises, encoding raises.
+    `validationError`: `PolyFuncType._to_serial_root()` — a polymorphic function type is not a member
+    of the serialised `Type` union, so it raises pydantic's `ValidationError` wherever a *type* is
+    serialised (row element, `TypeTypeArg.ty`); it is only serialisable as a field (`_to_serial()`),
+    which is what `encTy (.poly …)` at the root gives. -/
 inductive EncErr where
   | indexError
+  | validationError
 deriving Repr, DecidableEq
 
 mutual
@@ -189,11 +194,13 @@ mutual
     | .qubit => pure (.obj [("t", .str "Q")])
   def encRow : List Ty → Except EncErr (List Json)
     | [] => pure []
+    | .poly _ _ _ _ :: _ => throw EncErr.validationError     -- `ser_it`: `_to_serial_root()` raises
     | t :: ts => do pure ((← encTy t) :: (← encRow ts))
   def encRows : List (List Ty) → Except EncErr (List Json)
     | [] => pure []
     | r :: rs => do pure (.arr (← encRow r) :: (← encRows rs))
   def encArg : TypeArg → Except EncErr Json
+    | .type (.poly _ _ _ _) => throw EncErr.validationError  -- `self.ty._to_serial_root()` raises
     | .type t => do pure (.obj [("tya", .str "Type"), ("ty", ← encTy t)])
     | .boundedNat n => pure (.obj [("tya", .str "BoundedNat"), ("n", .int n)])
     | .string s => pure (.obj [("tya", .str "String"), ("arg", .str s)])
